@@ -4,9 +4,13 @@ import (
 	"encoding/json"
 	"fmt"
 	"os"
+	"runtime"
 	"strings"
+	"sync"
+	"sync/atomic"
 	"time"
 
+	"github.com/pinealctx/neptune/stcp"
 	"verifharness/vh"
 )
 
@@ -25,6 +29,11 @@ type scenario struct {
 	pace  time.Duration
 	chunk int
 	amp   int
+	// every payload byte is handed to Session.Send sendAmp times (and folded back by the peer): payloads of tens of
+	// KiB to a MiB on the real session, a few bytes in the case term
+	sendAmp int
+	// every connection's Close closes it and then returns an error
+	closeErr bool
 }
 
 // what the slow-drain class measured about its own timing
@@ -36,6 +45,7 @@ type timing struct {
 }
 
 type phaseRec struct {
+	par      bool
 	issued   []label
 	resolved []label
 	obs      obsAll
@@ -92,6 +102,7 @@ func runScenarioT(sc scenario) ([]phaseRec, string, timing) {
 	}
 	w := newWorld(rt, wt)
 	w.pace, w.chunk, w.amp = sc.pace, sc.chunk, sc.amp
+	w.sendAmp, w.closeErr = sc.sendAmp, sc.closeErr
 	var dog *watchdog
 	if sc.pace > 0 {
 		dog = startWatchdog()
@@ -116,19 +127,104 @@ func runScenarioT(sc scenario) ([]phaseRec, string, timing) {
 		if sc.pace > 0 && k == 1 {
 			tFirst = time.Now()
 		}
-		for i := range issued {
-			if err := w.issue(&issued[i], issued[i].natural); err != nil {
-				if err == errDiverged {
-					note = fmt.Sprintf("replay stopped before %v: %v", issued[i], err)
-					issued = issued[:i]
-					diverged = true
-					break
+		par := len(issued) > 0 && issued[0].par
+		if par {
+			// concurrent calls: one goroutine per label.  The payloads are prepared beforehand and the goroutines spin on
+			// a flag until all of them are on a processor, so that the calls really overlap.
+			for i := range issued {
+				if issued[i].kind == aSend && w.sendAmp > 1 {
+					big := make([]byte, 0, len(issued[i].bs)*w.sendAmp)
+					for _, x := range issued[i].bs {
+						for j := 0; j < w.sendAmp; j++ {
+							big = append(big, x)
+						}
+					}
+					issued[i].real = big
 				}
-				panic(fmt.Sprintf("c16: harness could not perform %v: %v", issued[i], err))
+			}
+			var wg sync.WaitGroup
+			var ready, goFlag int32
+			spin := len(issued) < runtime.GOMAXPROCS(0)
+			gate := make(chan struct{})
+			errs := make([]error, len(issued))
+			// everything that takes a lock of the harness is done before the release: after it a goroutine makes
+			// nothing but the one call on the session
+			calls := make([]func(), len(issued))
+			for i := range issued {
+				i := i
+				l := &issued[i]
+				w.mu.Lock()
+				var rs *realSess
+				if l.i >= 0 && l.i < len(w.sess) {
+					rs = w.sess[l.i]
+				}
+				w.mu.Unlock()
+				var sess *stcp.Session
+				if rs != nil {
+					sess = rs.sess.Load()
+				}
+				switch {
+				case sess != nil && l.kind == aSend:
+					bs := l.bs
+					if l.real != nil {
+						bs = l.real
+					}
+					calls[i] = func() { l.ok = sess.Send(bs) == nil }
+				case sess != nil && l.kind == aLocalClose:
+					calls[i] = func() { sess.Close() }
+				default:
+					calls[i] = func() { errs[i] = w.issue(l, l.natural) }
+				}
+			}
+			for i := range issued {
+				wg.Add(1)
+				go func(i int) {
+					defer wg.Done()
+					if spin {
+						atomic.AddInt32(&ready, 1)
+						for atomic.LoadInt32(&goFlag) == 0 {
+						}
+					} else {
+						<-gate
+					}
+					calls[i]()
+				}(i)
+			}
+			if spin {
+				for atomic.LoadInt32(&ready) < int32(len(issued)) {
+					runtime.Gosched()
+				}
+				atomic.StoreInt32(&goFlag, 1)
+			} else {
+				close(gate)
+			}
+			wg.Wait()
+			for i := range issued {
+				issued[i].real = nil
+			}
+			for i, err := range errs {
+				if err != nil {
+					panic(fmt.Sprintf("c16: harness could not perform %v: %v", issued[i], err))
+				}
+			}
+		} else {
+			for i := range issued {
+				if err := w.issue(&issued[i], issued[i].natural); err != nil {
+					if err == errDiverged {
+						note = fmt.Sprintf("replay stopped before %v: %v", issued[i], err)
+						issued = issued[:i]
+						diverged = true
+						break
+					}
+					panic(fmt.Sprintf("c16: harness could not perform %v: %v", issued[i], err))
+				}
 			}
 		}
-		outs := explore(t, issued)
-		rec := phaseRec{issued: issued}
+		var outs []outcome
+		if !par {
+			outs = explore(t, issued, false, nil)
+		}
+		rec := phaseRec{issued: issued, par: par}
 		t0 := time.Now()
 		var last obsAll
 		var lastCensus census
@@ -140,6 +236,9 @@ func runScenarioT(sc scenario) ([]phaseRec, string, timing) {
 			last, lastCensus = o, c
 			if !ready || !c.allParked {
 				return false
+			}
+			if par {
+				outs = explore(t, issued, true, &o) // the order in which the concurrent calls took effect is read off the observation
 			}
 			for j, out := range outs {
 				if obsOfM(out.st).eq(o) {
@@ -221,7 +320,8 @@ func firstLines(s string, n int) string {
 func caseOf(sc scenario, recs []phaseRec, note string) vh.Case {
 	ph := make([]string, len(recs))
 	type jp struct {
-		Issued   []string `json:"issued"`
+		Issued     []string `json:"issued"`
+		Concurrent bool     `json:"issued_concurrently,omitempty"`
 		Observed obsAll   `json:"observed"`
 		Matched  bool     `json:"model_agrees"`
 	}
@@ -229,7 +329,7 @@ func caseOf(sc scenario, recs []phaseRec, note string) vh.Case {
 	nontrivial := false
 	var replay [][]label
 	for i, r := range recs {
-		ph[i] = fmt.Sprintf("mkPh %s %s %s", coqLabels(r.issued), coqLabels(r.resolved), r.obs.coq())
+		ph[i] = fmt.Sprintf("mkPh %s %s %s %s", vh.CoqBool(r.par), coqLabels(r.issued), coqLabels(r.resolved), r.obs.coq())
 		is := make([]string, len(r.issued))
 		for j, l := range r.issued {
 			is[j] = l.String()
@@ -237,7 +337,7 @@ func caseOf(sc scenario, recs []phaseRec, note string) vh.Case {
 		for j := range r.obs.Sess {
 			r.obs.Sess[j].InboxS = fmt.Sprintf("%v", r.obs.Sess[j].Inbox)
 		}
-		desc = append(desc, jp{Issued: is, Observed: r.obs, Matched: r.matched})
+		desc = append(desc, jp{Issued: is, Concurrent: r.par, Observed: r.obs, Matched: r.matched})
 		for _, x := range r.obs.Sess {
 			if x.OnExit > 0 || (!x.Started && x.Closed) {
 				nontrivial = true
@@ -254,6 +354,12 @@ func caseOf(sc scenario, recs []phaseRec, note string) vh.Case {
 	if note != "" {
 		d["note"] = note
 	}
+	if sc.sendAmp > 1 {
+		d["bytes_per_payload_symbol"] = sc.sendAmp
+	}
+	if sc.closeErr {
+		d["conn_close_returns_error"] = true
+	}
 	if sc.readTO != 0 || sc.writeTO != 0 {
 		d["readTimeout"] = sc.readTO.String()
 		d["writeTimeout"] = sc.writeTO.String()
@@ -269,6 +375,7 @@ type jLabel struct {
 	B  []byte `json:"b,omitempty"`
 	F  int    `json:"f,omitempty"`
 	N  bool   `json:"n,omitempty"`
+	P  bool   `json:"p,omitempty"`
 }
 type jScenario struct {
 	Class string     `json:"class"`
@@ -279,14 +386,16 @@ type jScenario struct {
 	Pace  int64      `json:"pace,omitempty"`
 	Chunk int        `json:"chunk,omitempty"`
 	Amp   int        `json:"amp,omitempty"`
+	SAmp  int        `json:"samp,omitempty"`
+	CErr  bool       `json:"cerr,omitempty"`
 }
 
 func encodeReplay(sc scenario, phases [][]label) string {
-	j := jScenario{Class: sc.class, Maxc: sc.maxc, RT: int64(sc.readTO), WT: int64(sc.writeTO), Pace: int64(sc.pace), Chunk: sc.chunk, Amp: sc.amp}
+	j := jScenario{Class: sc.class, Maxc: sc.maxc, RT: int64(sc.readTO), WT: int64(sc.writeTO), Pace: int64(sc.pace), Chunk: sc.chunk, Amp: sc.amp, SAmp: sc.sendAmp, CErr: sc.closeErr}
 	for _, p := range phases {
 		var q []jLabel
 		for _, l := range p {
-			q = append(q, jLabel{K: l.kind, I: l.i, T: l.tr, R: l.reads, B: l.bs, F: l.k, N: l.natural})
+			q = append(q, jLabel{K: l.kind, I: l.i, T: l.tr, R: l.reads, B: l.bs, F: l.k, N: l.natural, P: l.par})
 		}
 		j.Ph = append(j.Ph, q)
 	}
@@ -303,12 +412,12 @@ func decodeReplay(s string) (scenario, error) {
 	for _, p := range j.Ph {
 		var q []label
 		for _, l := range p {
-			q = append(q, label{kind: l.K, i: l.I, tr: l.T, reads: l.R, bs: l.B, k: l.F, natural: l.N})
+			q = append(q, label{kind: l.K, i: l.I, tr: l.T, reads: l.R, bs: l.B, k: l.F, natural: l.N, par: l.P})
 		}
 		phases = append(phases, q)
 	}
 	return scenario{class: j.Class, maxc: j.Maxc, readTO: time.Duration(j.RT), writeTO: time.Duration(j.WT), strategy: staticStrategy(phases),
-		pace: time.Duration(j.Pace), chunk: j.Chunk, amp: j.Amp}, nil
+		pace: time.Duration(j.Pace), chunk: j.Chunk, amp: j.Amp, sendAmp: j.SAmp, closeErr: j.CErr}, nil
 }
 
 func main() {
